@@ -458,7 +458,9 @@ fn worker_main(def: &CheckDef, space_name: &str) -> ! {
     let sb = space.sandbox.expect("sandbox cfg");
     crate::alloc::enable();
     static CASE_START: AtomicU64 = AtomicU64::new(0);
-    let wall = sb.wall_ms;
+    // the confirming re-run of a suspected hang gets a multiple of the budget (VERIF_WALL_SCALE)
+    let scale: u64 = std::env::var("VERIF_WALL_SCALE").ok().and_then(|v| v.parse().ok()).unwrap_or(1);
+    let wall = sb.wall_ms * scale.max(1);
     std::thread::spawn(move || loop {
         std::thread::sleep(Duration::from_millis(20));
         let st = CASE_START.load(SeqCst);
@@ -507,8 +509,12 @@ struct Child {
     stdout: BufReader<std::process::ChildStdout>,
 }
 fn spawn_child(id_args: &[String], space: &str) -> Child {
+    spawn_child_scaled(id_args, space, 1)
+}
+fn spawn_child_scaled(id_args: &[String], space: &str, wall_scale: u64) -> Child {
     let exe = std::env::current_exe().expect("current_exe");
     let mut p = std::process::Command::new(exe)
+        .env("VERIF_WALL_SCALE", wall_scale.to_string())
         .arg("--worker")
         .arg(space)
         .args(id_args)
@@ -593,7 +599,7 @@ fn run_sandboxed(def: &CheckDef, space: &Space, pass_args: &[String]) -> Local {
                             // a wall-clock hang verdict is confirmed by running the case once more, alone, in a
                             // fresh worker: on a loaded machine a global stall can exceed the budget of a fast case
                             if kind == "hang" {
-                                let mut c2 = spawn_child(pass_args, &space.name);
+                                let mut c2 = spawn_child_scaled(pass_args, &space.name, 4);
                                 if let ChildEnd::Done(l2) = run_range(&mut c2, idx, idx + 1, false) {
                                     total.lock().unwrap().merge(l2);
                                     let mut st = Local::default();
